@@ -58,6 +58,17 @@ Fixpoint wait_empty (len : nat) (obs : list wait_obs) : option (bool * nat) :=
            end
   end.
 
+(* the same loop without the second look: a wake-up is taken for proof that the queue drained *)
+Definition wait_empty_norecheck (len : nat) (obs : list wait_obs) : option (bool * nat) :=
+  match len with
+  | 0 => Some (true, 0)
+  | S _ => match obs with
+           | [] => None
+           | TimedOut :: _ => Some (false, len)
+           | Woken l :: _ => Some (true, l)
+           end
+  end.
+
 (* ---------------------------------------------------------------------------------------- *)
 (* Waiters on the "queue empty" condition (ares_queue_wait_empty / ares_queue_notify_empty).
    [broadcast] selects what the notification does: wake every waiter (ares_thread_cond_broadcast,
